@@ -161,12 +161,50 @@ class WriteFn:
                 and self.snapshot is not None and hir.is_local(s["r"], self.snapshot))
 
 
+def _snapshot_is_a_copy(facts, rep):
+    """The snapshot restored on a short write / an error is `state.clone()`: for the stripper's state type and every type of this
+    workspace it is made of, Clone is the derived (field-wise) one, or a hand-written one that by evaluation returns its argument —
+    a clone that resets part of the state (the half-fed UTF-8 decoder, say) makes the replay start from a different state than the
+    one the call started in."""
+    import abseval
+    LOCAL = ("anstream::", "anstyle_parse::")
+    todo, seen = ["anstream::adapter::strip::StripBytes"], set()
+    while todo:
+        ty = todo.pop()
+        if ty in seen:
+            continue
+        seen.add(ty)
+        crate = ty.split("::")[0]
+        its = [i for i in facts.items(crate) if i["dk"] in ("Struct", "Enum") and i["path"] == ty]
+        if len(its) != 1:
+            rep.bad("W1", ty, "clone-is-a-copy", "type of the strip state not found")
+            continue
+        for v in its[0].get("variants", []):
+            for f in v.get("fields", []):
+                ft = str(f.get("ty", "")).split("<")[0]
+                if ft.startswith(LOCAL):
+                    todo.append(ft)
+        impls = [i for i in facts.items(crate) if i["dk"] == "Impl" and i.get("trait") == "core::clone::Clone" and str(i.get("self_ty", "")).split("<")[0] == ty]
+        ok, why = len(impls) == 1 and bool(impls[0].get("derived")), "derived"
+        if len(impls) == 1 and not ok:
+            path = [a["path"] for a in impls[0]["assoc"] if a["name"] == "clone"]
+            try:
+                fields = [f["name"] for v in its[0].get("variants", [])[:1] for f in v.get("fields", [])]
+                x = ("rec", {n_: ("sym", n_) for n_ in fields})
+                r = abseval.Evaluator(facts, crate, {"*": lambda cal, a_, e_: a_[0] if cal.endswith("Clone::clone") and len(a_) == 1 else None}).call_fn(crate, path[0], [x])
+                ok, why = r == x, f"hand-written: clone(x) evaluates to {str(r)[:100]}"
+            except (Unrecognised, IndexError) as ex:
+                ok, why = False, f"hand-written and not evaluable: {ex}"
+        rep.check(ok, "W1", ty, "clone-is-a-copy", why, "")
+
+
 def rule_W1_W3(facts, rep):
     w = WriteFn(facts)
     b = w.b
     rep.fn(b["path"])
     rep.check(w.snapshot is not None, "W1", b["path"], "snapshot-before-loop",
               "the strip state is cloned before any byte is consumed", loc(b))
+    _snapshot_is_a_copy(facts, rep)
     # the name bound to the count accepted by the inner writer
     written = None
     for name, ls in w.lets.items():
@@ -590,6 +628,36 @@ def rule_adapter(facts, rep, crate, mod):
                        (" — a formatter failure is turned into success" if r[0] == "ok" and fmt_res == "err" else ""))
     rep.check(ok, "W4", wf["path"], "write_fmt:returns-saved-error",
               f"Adapter::write_fmt returns the saved inner error when fmt::write fails ({why or str(n_cases) + ' cases'})", loc(wf))
+    # std's provided fmt::Write methods (write_char, write_fmt) go through write_str; an override of one of them in this impl must do
+    # the same — one call of write_str, its result returned, the writer and the saved error not touched directly — or the bytes /
+    # the error take a path the rules above do not see
+    impls = [i for i in facts.items(crate) if i["dk"] == "Impl" and i.get("trait") == "core::fmt::Write" and str(i.get("self_ty", "")).startswith(f"{mod}Adapter")]
+    extra_bad = []
+    for i in impls:
+        for a in i["assoc"]:
+            if a["name"] == "write_str":
+                continue
+            eb = facts.body(crate, a["path"])
+            rep.fn(eb["path"])
+            direct, via = [], []
+            ev = abseval.Evaluator(facts, crate, {"call:self.writer": lambda a_: (direct.append(a_), ("sym", "writer-result"))[1],
+                                                  ws["path"]: lambda a_: (via.append(a_), ("sym", "write_str-result"))[1],
+                                                  "*": lambda cal, a_, e_: ("app", cal) + tuple(a_)})
+            env = abseval.Env()
+            for p_ in eb["params"]:
+                env[p_["name"]] = ("sym", p_["name"])
+            env["self.error"] = X0
+            try:
+                try:
+                    r = ev.ev(eb["hir"], env)
+                except abseval.Return as rt:
+                    r = rt.v
+                if direct or len(via) != 1 or r != ("sym", "write_str-result") or any(k == "self.error" for k, _ in ev.stores):
+                    extra_bad.append(f"{a['name']}: {len(direct)} direct writer calls, {len(via)} write_str calls, returns {str(r)[:40]}")
+            except (Unrecognised, abseval.NeedChoice) as ex:
+                extra_bad.append(f"{a['name']}: not evaluable: {str(ex)[:80]}")
+    rep.check(len(impls) == 1 and not extra_bad, "W4", ws["path"], "only-write_str-reaches-the-writer",
+              f"{len(impls)} fmt::Write impl(s) for the adapter; overrides that do not go through write_str: {extra_bad}"[:300], loc(ws))
     rep.check(not mentions(X0, ("sym", "writer")) and X0[0] in ("ok", "none", "enum", "unit"), "W4", nw["path"], "new:error-starts-Ok",
               f"a fresh adapter holds no error ({X0}); write_fmt with that value and a failing formatter reports the formatter error (case above)", loc(nw))
 
